@@ -958,8 +958,8 @@ def desugar_collect_chains(text, log, relfile, line):
         if cand is None:
             return text
         rs, ce, ii, kind, zipped, pat, body = cand
-        if SIDE_EFFECT_RE.search(body) or re.search(r"[^=!<>]=[^=>]", body.replace("==", "")):
-            raise VxError("N10: closure body may have side effects: %r" % body[:80])
+        # No side-effect restriction here (unlike N6): map / filter_map followed by collect() call the closure exactly
+        # once per element, in order, with no short-circuit (the Ok(..) form has no Err element), which is what the loop does.
         recv = text[toks[rs].start:toks[ii - 1].start].strip()
         by_iter = toks[ii].text == "iter"
         # statement context: `let NAME: TYPE = CHAIN`
